@@ -57,54 +57,6 @@ theorem zero_dropped (env : Env) (cfg : DecodeCfg) (now : Int) (s : RState) (lin
   unfold acceptedFrame
   simp [hm, hdf, h0]
 
-theorem acceptedFrame_df (cfg : DecodeCfg) (line : List Nat) (m : Msg) (df icao : Nat)
-    (h : acceptedFrame cfg line = some (m, df, icao)) :
-    getMessage line = some m ∧ getDownlinkFormat m = some df ∧ getIcao m df = some icao
-      ∧ passesFilter cfg df = true := by
-  unfold acceptedFrame at h
-  split at h; · simp at h
-  rename_i m' hm'
-  split at h; · simp at h
-  rename_i df' hdf'
-  split at h; · simp at h
-  rename_i icao' hi'
-  split at h
-  · rename_i hp
-    simp only [Option.some.injEq, Prod.mk.injEq] at h
-    obtain ⟨rfl, rfl, rfl⟩ := h
-    exact ⟨hm', hdf', hi', hp⟩
-  · simp at h
-
-theorem fromMessage_some (env : Env) (m : Msg) (df : Nat) (hdf : getDownlinkFormat m = some df) :
-    ∃ dl, DFRec.fromMessage env m = some dl := by
-  unfold DFRec.fromMessage
-  rw [hdf]
-  simp only
-  split
-  · exact ⟨_, rfl⟩
-  · split
-    · exact ⟨_, rfl⟩
-    · split <;> exact ⟨_, rfl⟩
-
-/-- the table after an accepted line: the frame applied to its row, then the sweep if due -/
-theorem stepLine_accepted (env : Env) (cfg : DecodeCfg) (now : Int) (s : RState) (line : List Nat)
-    (m : Msg) (df icao : Nat) (h : acceptedFrame cfg line = some (m, df, icao)) :
-    ∃ dl, DFRec.fromMessage env m = some dl ∧
-      (stepLine env cfg now s line).table
-        = if s.cleanupCount > 10 then
-            (updateAircraft env cfg now s.table dl m df icao).filter
-              (fun kp => numSeconds now kp.2.timestamp < cfg.deleteAfter)
-          else updateAircraft env cfg now s.table dl m df icao := by
-  obtain ⟨_, hdf, _, _⟩ := acceptedFrame_df cfg line m df icao h
-  obtain ⟨dl, hdl⟩ := fromMessage_some env m df hdf
-  refine ⟨dl, hdl, ?_⟩
-  unfold stepLine
-  rw [h]
-  simp only
-  rw [hdl]
-  simp only [cleanup]
-  by_cases hc : cfg.countDf = true <;> by_cases h10 : s.cleanupCount > 10 <;> simp [hc, h10]
-
 /-- no other aircraft's row changes: it is byte-for-byte the same, or it was removed by the
     expiry sweep (C12) because it had not been heard for `delete_after` seconds -/
 theorem row_isolation (env : Env) (cfg : DecodeCfg) (now : Int) (s : RState) (line : List Nat)
@@ -130,16 +82,6 @@ theorem row_isolation (env : Env) (cfg : DecodeCfg) (now : Int) (s : RState) (li
         refine ⟨rfl, hc, p, rfl, ?_⟩
         simpa using hexp
   · left; exact hother
-
-/-- the row a frame leaves behind is stamped with the current time -/
-theorem fromDownlink_timestamp (env : Env) (now : Int) (dl : DFRec) (icao : Nat) :
-    (Plane.fromDownlink env now dl icao).timestamp = now := by
-  have e1 : ∀ q : Plane, (eraseExt q).timestamp = q.timestamp := fun _ => rfl
-  unfold Plane.fromDownlink Plane.updateFromDownlink
-  cases dl with
-  | srt v => simp only [Plane.amendSrt]; split <;> rfl
-  | ext v => simp only; rw [← e1, eraseExt_amendExt, e1]
-  | mds i => rfl
 
 /-- an accepted frame creates the row of its address if absent (for `delete_after > 0`; with
     `delete_after <= 0` the sweep of the same step may remove it again, as C12 prescribes) -/
